@@ -16,15 +16,17 @@ src=/tmp/advout-$id/$k; wt=/tmp/adv-$id
 [ -d "$wt" ] || git -C /repo worktree add -q --detach $wt HEAD
 [ -f "$src/patch.diff" ] || { echo "no $src/patch.diff"; exit 2; }
 dd=$(python3 -c "import json;print(json.load(open('$src/meta.json')).get('demo_dir','test'))")
+# a demonstration of a data race is run under the race detector (its demo_cmd says so)
+rf=$(python3 -c "import json;print('-race' if '-race' in json.load(open('$src/meta.json')).get('demo_cmd','') else '')")
 git -C $wt checkout -q -- . ; git -C $wt clean -qfd
 cp $src/demo_test.go $wt/$dd/zz_seeded_demo_test.go
 tn=$(grep -o 'func Test[A-Za-z0-9_]*' $src/demo_test.go | head -1 | sed 's/func //')
-clean=$(cd $wt && go test -vet=off -count=1 -run "^$tn\$" ./$dd/ 2>&1 | tail -1)
+clean=$(cd $wt && go test $rf -vet=off -count=1 -run "^$tn\$" ./$dd/ 2>&1 | tail -1)
 git -C $wt apply $src/patch.diff || { echo "patch does not apply"; exit 2; }
 rm $wt/$dd/zz_seeded_demo_test.go
 suite=$(cd $wt && go test -vet=off -count=1 ./pkg/... ./test/... 2>&1 | grep -v 'no test files' | tr '\n' ';')
 cp $src/demo_test.go $wt/$dd/zz_seeded_demo_test.go
-demo=$(cd $wt && go test -vet=off -count=1 -run "^$tn\$" ./$dd/ 2>&1 | grep -E '^(--- FAIL|FAIL|ok)' | head -2 | tr '\n' ';')
+demo=$(cd $wt && go test $rf -vet=off -count=1 -run "^$tn\$" ./$dd/ 2>&1 | grep -E '^(--- FAIL|FAIL|ok)' | head -2 | tr '\n' ';')
 rm $wt/$dd/zz_seeded_demo_test.go
 echo "clean-tree demo: $clean"; echo "patched suite: $suite"; echo "patched demo: $demo"
 res=""
